@@ -12,8 +12,12 @@
 //            R<tid>:<id>:<xname>=<val>,...              span.record_all (undeclared names are dropped, as Span::record does)
 //            E<tid>:<id>  X<tid>:<id>  D<tid>:<id>      enter / exit / drop the handle
 //            M<tid>:<c|g|h>:<xname>:<xk>=<xv>,...:<filter index>   register a metric through the TracingContext
-//   val:     e | s<hex> | b0|b1 | i<int> | u<int> | I<int> (i128) | d<hex> (?str) | p<hex> (%str)
-//            | o<int> (?Some(i64)) | on (?None) | f<int> (f64 = int/2)
+//   val:     e | s<hex> (&str) | S<hex> (String) | b0|b1 | i<int> | u<int> | I<int> (i128) | U<int> (u128) | Z<int> (NonZeroU128)
+//            | z<int> (NonZeroI64) | t<ty>.<int> (i8 i16 i32 isize u8 u16 u32 usize) | W<int> (Wrapping<i64>) | q<int>|qn (Option<i64> as a Value)
+//            | f<int> (f64 = int/2) | F<16 hex> (f64 bits) | g<8 hex> (f32 bits) | y<hex> (&[u8]) | r<hex> (&dyn Error, Display = text)
+//            | R<hex> (&(dyn Error + Send + Sync)) | d<hex> (?str) | p<hex> (%str) | o<int> (?Some(i64)) | on (?None)
+//   Visit entry points reached: record_str, record_bool, record_i64, record_u64, record_i128, record_u128, record_f64, record_bytes,
+//   record_error, record_debug (record_value exists only under cfg(tracing_unstable) and is not compiled here)
 // stdout: one line per case: `ok <key> <key> ...` (one key per M, `x<hexname>:x<hexk>=x<hexv>,...`) or `panic:<msg>`
 use metrics::{Counter, Gauge, Histogram, Key, KeyName, Label, Metadata, Recorder, SharedString, Unit};
 use metrics_tracing_context::label_filter::{Allowlist, IncludeAll};
@@ -208,20 +212,47 @@ impl Recorder for Log {
 
 // ---------------------------------------------------------------- values
 #[derive(Clone, Debug)]
-enum Val { E, S(String), B(bool), I(i64), U(u64), I128(i128), D(String), P(String), O(Option<i64>), F(f64) }
+enum Val {
+    E, S(String), B(bool), I(i64), U(u64), I128(i128), U128(u128), D(String), P(String), O(Option<i64>), F(f64), F32(f32),
+    Bytes(Vec<u8>), Err(TestError), ErrSs(Box<TestError>), Small(String, i128), OptV(Option<i64>), Wrap(i64), Owned(String),
+    NzU128(std::num::NonZeroU128), NzI64(std::num::NonZeroI64),
+}
+// an error whose Display and Debug differ, so that record_error's route (Display) is told apart from record_debug's
+#[derive(Clone)]
+struct TestError(String);
+impl std::fmt::Display for TestError {
+    fn fmt(&self, f: &mut std::fmt::Formatter<'_>) -> std::fmt::Result { f.write_str(&self.0) }
+}
+impl std::fmt::Debug for TestError {
+    fn fmt(&self, f: &mut std::fmt::Formatter<'_>) -> std::fmt::Result { write!(f, "TestError{{debug-form:{:?}}}", self.0) }
+}
+impl std::error::Error for TestError {}
+
 fn parse_val(s: &str) -> Val {
     let (c, r) = s.split_at(1);
     match c {
         "e" => Val::E,
         "s" => Val::S(unhx(&format!("x{}", r))),
+        "S" => Val::Owned(unhx(&format!("x{}", r))),
         "b" => Val::B(r == "1"),
         "i" => Val::I(r.parse().unwrap()),
         "u" => Val::U(r.parse().unwrap()),
         "I" => Val::I128(r.parse().unwrap()),
+        "U" => Val::U128(r.parse().unwrap()),
+        "Z" => Val::NzU128(std::num::NonZeroU128::new(r.parse().unwrap()).unwrap()),
+        "z" => Val::NzI64(std::num::NonZeroI64::new(r.parse().unwrap()).unwrap()),
         "d" => Val::D(unhx(&format!("x{}", r))),
         "p" => Val::P(unhx(&format!("x{}", r))),
         "o" => Val::O(if r == "n" { None } else { Some(r.parse().unwrap()) }),
+        "q" => Val::OptV(if r == "n" { None } else { Some(r.parse().unwrap()) }),
+        "W" => Val::Wrap(r.parse().unwrap()),
         "f" => Val::F(r.parse::<i64>().unwrap() as f64 / 2.0),
+        "F" => Val::F(f64::from_bits(u64::from_str_radix(r, 16).unwrap())),
+        "g" => Val::F32(f32::from_bits(u32::from_str_radix(r, 16).unwrap())),
+        "y" => Val::Bytes((0..r.len() / 2).map(|i| u8::from_str_radix(&r[2 * i..2 * i + 2], 16).unwrap()).collect()),
+        "r" => Val::Err(TestError(unhx(&format!("x{}", r)))),
+        "R" => Val::ErrSs(Box::new(TestError(unhx(&format!("x{}", r))))),
+        "t" => { let (ty, n) = r.split_once('.').unwrap(); Val::Small(ty.to_string(), n.parse().unwrap()) }
         _ => panic!("bad value {}", s),
     }
 }
@@ -229,14 +260,35 @@ fn boxed(v: &Val) -> Box<dyn Value + '_> {
     match v {
         Val::E => Box::new(Empty),
         Val::S(s) => Box::new(s.as_str()),
+        Val::Owned(s) => Box::new(s.clone()),                         // impl Value for String
         Val::B(b) => Box::new(*b),
         Val::I(i) => Box::new(*i),
         Val::U(u) => Box::new(*u),
         Val::I128(i) => Box::new(*i),
+        Val::U128(u) => Box::new(*u),
+        Val::NzU128(n) => Box::new(*n),
+        Val::NzI64(n) => Box::new(*n),
         Val::D(s) => Box::new(debug(s.as_str())),
         Val::P(s) => Box::new(display(s.as_str())),
         Val::O(o) => Box::new(debug(*o)),
+        Val::OptV(o) => Box::new(*o),                                 // impl Value for Option<T>
+        Val::Wrap(i) => Box::new(std::num::Wrapping(*i)),
         Val::F(f) => Box::new(*f),
+        Val::F32(f) => Box::new(*f),
+        Val::Bytes(b) => Box::new(b.as_slice()),                      // &[u8] -> record_bytes
+        Val::Err(e) => Box::new(e as &(dyn std::error::Error + 'static)),
+        Val::ErrSs(e) => { let r: &(dyn std::error::Error + Send + Sync + 'static) = &**e; Box::new(r) }
+        Val::Small(ty, n) => match ty.as_str() {
+            "i8" => Box::new(i8::try_from(*n).unwrap()),
+            "i16" => Box::new(i16::try_from(*n).unwrap()),
+            "i32" => Box::new(i32::try_from(*n).unwrap()),
+            "isize" => Box::new(isize::try_from(*n).unwrap()),
+            "u8" => Box::new(u8::try_from(*n).unwrap()),
+            "u16" => Box::new(u16::try_from(*n).unwrap()),
+            "u32" => Box::new(u32::try_from(*n).unwrap()),
+            "usize" => Box::new(usize::try_from(*n).unwrap()),
+            _ => panic!("bad small int type {}", ty),
+        },
     }
 }
 fn parse_fields(s: &str) -> Vec<(String, Val)> {
@@ -409,7 +461,12 @@ fn run_case(line: &str) -> String {
         if let Ok(mut sh) = shared.lock() { sh.handles.clear(); }
     }
     for tx in &txs { let _ = tx.send(None); }
-    for j in joins { let _ = j.join(); }
+    for j in joins {
+        if let Err(e) = j.join() {
+            // a worker that died outside the per-event catch_unwind (e.g. while unwinding the dispatcher scope) is a failure
+            if failure.is_none() { failure = Some(format!("worker thread panicked: {}", panic_msg(e))); }
+        }
+    }
     match failure {
         Some(m) => format!("panic:{}", m.replace('\n', " ")),
         None => { let l = log.0.lock().unwrap(); format!("ok {}", l.join(" ")) }
